@@ -79,6 +79,7 @@ func C08(c *core.Ctx) {
 	c08WhichWay(c, lineT)
 	c08CheckArgs(c)
 	c08Writers(c)
+	c08SplitInput(c, lineT)
 }
 
 func mkLine(lineT types.Type, id string, idx, amb int64) *eval.StructVal {
@@ -788,4 +789,117 @@ func c08IgnoreMembership(c *core.Ctx) {
 	}
 	c.Count("ignore_lists_evaluated", len(lists))
 	c.Ob("R2/ignore-list-membership", len(bad) == 0, fn.Pos(), "%s", first(bad, 3))
+}
+
+// ---- splitInput: the --threshold-target filter and the fan-out to one worker per query
+
+// c08SplitInput interprets updown.splitInput in the sequential pipeline model with the two per-query workers replaced
+// by recorders: every query gets exactly one worker of the kind the options select (with the options in their
+// places), and every worker is sent exactly the targets whose ambiguity count does not exceed --threshold-target,
+// in file order, after which its channel is closed and completion is signalled once.
+func c08SplitInput(c *core.Ctx, lineT types.Type) {
+	key := "R5/splitInput"
+	fn := c.LookupFunc("pkg/updown", "splitInput")
+	wDef := c.LookupFunc("pkg/updown", "findUpDownCatchment")
+	wPush := c.LookupFunc("pkg/updown", "findUpDownCatchmentPushDistance")
+	if fn == nil || wDef == nil || wPush == nil {
+		c.Und(key, token.NoPos, "UNRESOLVED anchors updown.splitInput / findUpDownCatchment / findUpDownCatchmentPushDistance")
+		return
+	}
+	type started struct {
+		kind string
+		args []string
+		in   *eval.ChanVal
+	}
+	var bad []string
+	n := 0
+	ambs := []int64{0, 3, 4, 5, 0, 9, 4}
+	for _, nq := range []int{1, 3} {
+		for _, push := range []int64{0, 2} {
+			for _, thr := range []int64{4, 0, 100} {
+				n++
+				ev := newEval(c)
+				ev.Pipeline = true
+				var ws []started
+				rec := func(kind string) eval.ExternFn {
+					return func(ev *eval.Evaluator, pos token.Pos, recv eval.Value, args []eval.Value) eval.Value {
+						st := started{kind: kind}
+						for _, a := range args {
+							if ch, ok := unref(a).(*eval.ChanVal); ok {
+								if st.in == nil {
+									st.in = ch // the first channel parameter is the worker's input
+								}
+								st.args = append(st.args, "chan")
+								continue
+							}
+							if sv, ok := unref(a).(*eval.StructVal); ok {
+								if id, ok := sv.F["id"].(eval.Str); ok {
+									st.args = append(st.args, "query("+id.Const()+")")
+									continue
+								}
+							}
+							st.args = append(st.args, renderWire(a))
+						}
+						ws = append(ws, st)
+						return nil
+					}
+				}
+				ev.Extern[wDef.FullName()] = rec("findUpDownCatchment")
+				ev.Extern[wPush.FullName()] = rec("findUpDownCatchmentPushDistance")
+				var qs, feed []eval.Value
+				for i := 0; i < nq; i++ {
+					qs = append(qs, mkLine(lineT, fmt.Sprintf("q%d", i), int64(i), 0))
+				}
+				var wantT []string
+				for i, a := range ambs {
+					feed = append(feed, mkLine(lineT, fmt.Sprintf("t%d", i), int64(i), a))
+					if a <= thr {
+						wantT = append(wantT, fmt.Sprintf("t%d", i))
+					}
+				}
+				out, errs, done := &eval.ChanVal{Name: "out"}, &eval.ChanVal{Name: "err"}, &eval.ChanVal{Name: "done"}
+				label := fmt.Sprintf("%d queries, --dist-push %d, --threshold-target %d", nq, push, thr)
+				_, err := ev.CallFunc(fn, eval.NewSlice(qs...), eval.NewSlice(eval.S("ign")), intArray4([4]int{1, 2, 3, 4}), true, intArray4([4]int{5, 6, 7, 8}), eval.FConst(0.25), eval.K(thr), eval.K(push),
+					&eval.ChanVal{Name: "in", Feed: feed}, out, errs, done)
+				if err != nil {
+					c.Und(key, fn.Pos(), "cannot evaluate (%s): %v", label, err)
+					return
+				}
+				if len(ws) != nq {
+					bad = append(bad, fmt.Sprintf("[%s] %d workers started for %d queries", label, len(ws), nq))
+					continue
+				}
+				for i, w := range ws {
+					want := fmt.Sprintf("findUpDownCatchment(query(q%d), [\"ign\"], [1 2 3 4], true, [5 6 7 8], 0.25, chan, chan)", i)
+					if push > 0 {
+						want = fmt.Sprintf("findUpDownCatchmentPushDistance(query(q%d), [\"ign\"], [1 2 3 4], %d, 0.25, chan, chan)", i, push)
+					}
+					got := w.kind + "(" + strings.Join(w.args, ", ") + ")"
+					if got != want && !c.SigChanged("pkg/updown", w.kind) {
+						bad = append(bad, fmt.Sprintf("[%s] worker %d is %s, want %s", label, i, got, want))
+					}
+					var gotT []string
+					if w.in != nil {
+						for _, v := range w.in.Sent {
+							if sv, ok := v.(*eval.StructVal); ok {
+								if id, ok := sv.F["id"].(eval.Str); ok {
+									gotT = append(gotT, id.Const())
+								}
+							}
+						}
+					}
+					if w.in == nil || strings.Join(gotT, ",") != strings.Join(wantT, ",") {
+						bad = append(bad, fmt.Sprintf("[%s] the worker of query %d is sent %v, want the targets with at most %d ambiguities in file order: %v", label, i, gotT, thr, wantT))
+					} else if !w.in.Closed {
+						bad = append(bad, fmt.Sprintf("[%s] the input channel of query %d's worker is never closed", label, i))
+					}
+				}
+				if len(done.Sent) != 1 || len(errs.Sent) != 0 {
+					bad = append(bad, fmt.Sprintf("[%s] %d completion signals, %d errors", label, len(done.Sent), len(errs.Sent)))
+				}
+			}
+		}
+	}
+	c.Count("split_input_scenarios", n)
+	c.Ob(key+"/target-threshold-and-fan-out", len(bad) == 0, fn.Pos(), "%s", first(bad, 3))
 }
